@@ -45,7 +45,110 @@ def teardown_races(rng, n):
     return out
 
 
+def awaitable_children(ctx, n):
+    """directed family on the direct API (the scenario language only spawns coroutines): children that are bare
+    awaitables - `scope.do(time + 20)`, `scope.do(eternity)`, `scope.do(flag)`, a comparison - in plain and until scopes
+    over every kind of notification, ended by the body finishing, the body failing, or the notification.  The close
+    reason of a scope is built from the textual form of the scope, its children and its notification, so those are on
+    the path too.  After the block: every child is done, the block raised what the text says, nothing else."""
+    import operator
+    import usim
+    from usim import time, eternity, instant, Scope, until, Flag, Tracked
+
+    class Boom(Exception):
+        pass
+    rng = ctx.rng
+    ops = [operator.lt, operator.le, operator.eq, operator.ne, operator.ge, operator.gt]
+    for _ in range(n):
+        flag, stock = Flag(), Tracked(3)
+        kids_spec = [rng.choice(['delay', 'eternity', 'flag', 'cmp', 'after', 'moment', 'before-never', 'coro', 'and', 'not'])
+                     for _ in range(rng.choice([1, 2, 3]))]
+        how = rng.choice(['body-fails', 'until-fires', 'until-holds', 'volatile-only'])
+        ukind = rng.choice(['delay', 'after', 'moment', 'flag', 'cmp', 'notflag', 'and'])
+        if how == 'until-fires' and ukind == 'and':
+            ukind = 'flag'      # (a connective that is false on entry never fires: known finding D4b of C07, not this property)
+        op = rng.choice(ops)
+        case = {'awaitable_children': kids_spec, 'ends_by': how, 'until_kind': ukind, 'cmp': op.__name__}
+        tasks = []
+
+        def awaitable(k):
+            if k == 'delay':
+                return time + 20
+            if k == 'eternity':
+                return eternity
+            if k == 'flag':
+                return Flag()
+            if k == 'cmp':
+                return op(stock, 100) if op not in (operator.ne, operator.le, operator.lt) else stock > 100
+            if k == 'after':
+                return time >= 30
+            if k == 'moment':
+                return time == 30
+            if k == 'before-never':
+                return time < 0
+            if k == 'and':
+                return Flag() & (time >= 30)
+            if k == 'not':
+                return ~(time < 30)
+
+            async def coro():
+                await (time + 25)
+            return coro()
+
+        def notification():
+            if how == 'until-holds':
+                return {'delay': time + 0, 'after': time >= 0, 'moment': time == 2, 'flag': ~Flag(), 'cmp': stock >= 3,
+                        'notflag': ~Flag(), 'and': (time >= 0) & (stock <= 3)}[ukind]
+            return {'delay': time + 5, 'after': time >= 7, 'moment': time == 7, 'flag': flag, 'cmp': (stock == 9) if op is operator.eq else op(stock, 8) if op in (operator.ge, operator.gt) else stock >= 8,
+                    'notflag': ~flag if False else flag, 'and': flag & (time >= 0)}[ukind]
+        outcome = []
+
+        async def main():
+            await (time + 2)
+            try:
+                mgr = Scope() if how in ('body-fails', 'volatile-only') else until(notification())
+                async with mgr as scope:
+                    for k in kids_spec:
+                        tasks.append(scope.do(awaitable(k), volatile=(how == 'volatile-only') or rng.random() < 0.3))
+                    if how == 'body-fails':
+                        await (time + 1)
+                        raise Boom()
+                    if how == 'volatile-only':
+                        await (time + 1)
+                    else:
+                        await (time + 50)
+                outcome.append(('left', time.now))
+            except Boom:
+                outcome.append(('Boom', time.now))
+            except GeneratorExit:
+                raise
+            except BaseException as e:   # noqa
+                outcome.append((type(e).__name__ + ': ' + str(e)[:80], time.now))
+            outcome.append(('done', [t.done._value if hasattr(t.done, '_value') else bool(t.done) for t in tasks]))
+            await (time + 1)
+
+        async def setter():
+            await (time + 7)
+            await flag.set()
+            await stock.set(9)
+        try:
+            usim.run(main(), setter())
+        except BaseException as e:   # noqa
+            ctx.fail(case, 'run() raised %r' % (e,), family='awaitable-children')
+            continue
+        ctx.count(case, nontrivial=True)
+        ctx.bump('family:awaitable-children')
+        t_end = {'body-fails': 3, 'volatile-only': 3, 'until-holds': 2}.get(how)
+        if how == 'until-fires':
+            t_end = 7      # the deadline kinds are due at 7, the setter sets the flag and the stock at 7
+        first = ('Boom', 3) if how == 'body-fails' else ('left', t_end)
+        non_vol_pending = how == 'volatile-only' and False
+        if not outcome or outcome[0] != first or outcome[1] != ('done', [True] * len(tasks)):
+            ctx.fail(case, 'observed %r; expected %r and every child done' % (outcome, first), family='awaitable-children')
+
+
 def run(ctx):
+    awaitable_children(ctx, ctx.n(60, 1200))
     machine_prop.run(ctx, FAMILIES, MONITORS, extra_scenarios=teardown_races(ctx.rng, ctx.n(40, 800)))
 
 
